@@ -41,6 +41,7 @@ def check(repo, col, tier):
     _tracer(repo, col)
     _state_arguments(repo, col)
     _inplace_registry(repo, col)
+    _sentinels(repo, col)
 
 
 def _self(t: T) -> bool:
@@ -840,3 +841,46 @@ def _inplace_registry(repo, col, R="R-C18-share"):
                         f"be shared with another group / a view's index array or be read-only; after pickle / deepcopy it is an owned writeable array, so the same "
                         f"edit gives another result on the copy than on the original", node=s_.node)
     col.ok(R, "jaxley/modules/base.py", "registry entries are replaced, never edited in place", f"{n} in-place writes into registry entries", func="Module") if n == 0 else None
+
+
+def _sentinels(repo, col, R="R-C18-share"):
+    """A module-level `SENTINEL = object()` is recognised by IDENTITY (`x is SENTINEL`).  Identity survives neither pickle nor deepcopy: the
+    copy holds a fresh `object()`, every `is SENTINEL` test on it is False, and the placeholder is taken for a real value.  Only the
+    singletons that pickle by reference (None, True/False, Ellipsis, NotImplemented, classes, functions, enum members) may play this role
+    in what is stored on a module or a view."""
+    n = 0
+    for rel, mi in sorted(repo.mods.items()):
+        if not rel.startswith("jaxley/"):
+            continue
+        sent = {}
+        for st in mi.tree.body:
+            if isinstance(st, ast.Assign) and len(st.targets) == 1 and isinstance(st.targets[0], ast.Name) and isinstance(st.value, ast.Call) and \
+                    isinstance(st.value.func, ast.Name) and st.value.func.id == "object" and not st.value.args:
+                sent[st.targets[0].id] = st
+        if not sent:
+            continue
+        for fi in repo.all_functions():
+            if fi.file != rel or not fi.cls:
+                continue
+            ex = idx.expander(repo, fi)
+            for s_ in ex.stores:
+                if s_.kind != "attr" or s_.value is None:
+                    continue
+                b = s_.base
+                while b.op == "attr" and b.args:
+                    b = b.args[0]
+                if not (b.op == "param" and b.name == "self"):
+                    continue
+                hit = T.find(s_.value, lambda x: x.op in ("free", "global", "name") and x.name in sent)
+                if hit is None:
+                    continue
+                n += 1
+                tested = any(isinstance(c, ast.Compare) and any(isinstance(o, (ast.Is, ast.IsNot)) for o in c.ops) and
+                             any(isinstance(x, ast.Name) and x.id == hit.name for x in ast.walk(c))
+                             for f2 in repo.all_functions() if f2.file == rel for c in ast.walk(f2.node))
+                col.check(not tested, R, fi, f"`{hit.name}` stored in `self.{s_.key.name}` is not recognised by identity",
+                          "placeholders in module state are None (or another by-reference singleton)",
+                          f"`{hit.name} = object()` is put into `self.{s_.key.name}` and later recognised with `is {hit.name}`: pickle / deepcopy give the copy a NEW "
+                          f"object() in its place, the identity test fails on the copy and the placeholder is treated as a real entry "
+                          f"(AttributeError, or a foreign object used as a mechanism)", node=s_.node)
+    col.info["object_sentinels_in_state"] = n
